@@ -1,0 +1,68 @@
+//go:build verif
+// +build verif
+
+package parser
+
+import (
+	"sync/atomic"
+
+	"github.com/huderlem/poryscript/token"
+)
+
+// Verification hook (build tag "verif"): counts the tokens the parser pulls
+// from the lexer so an external monitor can decide "the parse makes progress"
+// on a logical clock instead of wall time. Without the tag this file is not
+// compiled and verifPull is an empty method (verif_off.go).
+
+// VerifPullLimitExceeded is the panic value raised when a parser pulls more
+// tokens than the limit installed with VerifSetPullLimits allows.
+type VerifPullLimitExceeded struct {
+	Pulls    int64
+	EOFPulls int64
+}
+
+// VerifPullStats are the per-parser counters kept by the hook.
+type VerifPullStats struct {
+	Pulls    int64
+	EOFPulls int64
+}
+
+// verifState is embedded in Parser; it is an empty struct without the tag.
+type verifState struct {
+	verifPulls    int64
+	verifEOFPulls int64
+	verifInputLen int64
+}
+
+var (
+	verifMaxSlack    int64 // 0 = no limit; limit on pulls is len(input)+slack
+	verifMaxEOFPulls int64 // 0 = no limit
+)
+
+// VerifSetPullLimits installs process-wide limits: a parser may pull at most
+// inputLen+slack tokens in total and at most maxEOF EOF tokens. Zero disables.
+func VerifSetPullLimits(slack, maxEOF int64) {
+	atomic.StoreInt64(&verifMaxSlack, slack)
+	atomic.StoreInt64(&verifMaxEOFPulls, maxEOF)
+}
+
+// VerifSetInputLen tells the hook the byte length of this parser's input.
+func (p *Parser) VerifSetInputLen(n int) { p.verifInputLen = int64(n) }
+
+// VerifStats returns the counters of this parser.
+func (p *Parser) VerifStats() VerifPullStats {
+	return VerifPullStats{Pulls: p.verifPulls, EOFPulls: p.verifEOFPulls}
+}
+
+func (p *Parser) verifPull() {
+	p.verifPulls++
+	if p.peek4Token.Type == token.EOF {
+		p.verifEOFPulls++
+	}
+	if m := atomic.LoadInt64(&verifMaxEOFPulls); m > 0 && p.verifEOFPulls > m {
+		panic(VerifPullLimitExceeded{Pulls: p.verifPulls, EOFPulls: p.verifEOFPulls})
+	}
+	if s := atomic.LoadInt64(&verifMaxSlack); s > 0 && p.verifInputLen > 0 && p.verifPulls > p.verifInputLen+s {
+		panic(VerifPullLimitExceeded{Pulls: p.verifPulls, EOFPulls: p.verifEOFPulls})
+	}
+}
